@@ -67,6 +67,8 @@ def run(ctx: Ctx):
     for e in self_effects:
         if e.kind == "ITEM_STORE" and e.target == "item of %s" % frames_key:
             continue
+        if e.kind == "MUT_CALL" and e.target in ("update() on %s" % frames_key,):
+            continue                      # entries written in bulk: still the frame table and nothing else
         # a write matters for later calls only if the written attribute is read on the call path
         # (or is construction-time state); a write-only attribute cannot influence a result
         attr = e.target.split(".")[-1].split(" ")[-1].split("[")[0]
